@@ -36,15 +36,16 @@ type Profile struct {
 	// SettleSlashPct: with SettleBeforeValueChange, percentage of slashes that are preceded by claim_all
 	// (0 means always). The remaining slashes hit positions with unclaimed rewards: the oracles
 	// stop judging exact amounts for such histories but keep their structural checks.
-	SettleSlashPct  int
-	HugeAmounts     bool
-	InvalidPct      int  // percentage of user ops deliberately targeting invalid inputs
-	FocusDelPct     int  // percentage of delegator draws forced to delegator 0 (packs buckets)
-	BoundaryPct     int  // percentage of block steps aimed at a pending completion instant (-1ns/=/+1ns); 0 = default 25
-	RepeatPct       int  // percentage of undelegate/redelegate draws that act again on the position touched last; 0 = default 25
-	FocusValPct     int  // percentage of delegate draws forced to validator 0 (several assets on one validator)
-	GovFuzz         bool // governance messages with nil / negative / boundary / huge field values and all signers
-	NoOverflowGuard bool
+	SettleSlashPct     int
+	HugeAmounts        bool
+	InvalidPct         int  // percentage of user ops deliberately targeting invalid inputs
+	FocusDelPct        int  // percentage of delegator draws forced to delegator 0 (packs buckets)
+	BoundaryPct        int  // percentage of block steps aimed at a pending completion instant (-1ns/=/+1ns); 0 = default 25
+	RepeatPct          int  // percentage of undelegate/redelegate draws that act again on the position touched last; 0 = default 25
+	RedelToExistingPct int  // percentage of redelegations aimed at a validator where the delegator already has a position; 0 = default 35
+	FocusValPct        int  // percentage of delegate draws forced to validator 0 (several assets on one validator)
+	GovFuzz            bool // governance messages with nil / negative / boundary / huge field values and all signers
+	NoOverflowGuard    bool
 }
 
 // generator-only composite kinds
@@ -488,6 +489,22 @@ func (g *Gen) Step() {
 			op = Op{K: kind, D: d.D, V: d.V, Denom: d.Denom, Amt: g.amount("amt", bal, true)}
 			if kind == KRedelegate {
 				op.W = (d.V + 1 + g.intn("w", nv-1)) % nv
+				rp := g.p.RedelToExistingPct
+				if rp == 0 {
+					rp = 35
+				}
+				if g.pct("redel-to-existing", rp) {
+					var others []int
+					for _, o := range s.Dels {
+						if o.D == d.D && o.Denom == d.Denom && o.V != d.V && o.V >= 0 {
+							others = append(others, o.V)
+						}
+					}
+					if len(others) > 0 {
+						sort.Ints(others)
+						op.W = others[g.intn("w-existing", len(others))]
+					}
+				}
 				if g.pct("same-val", 2) {
 					op.W = d.V
 				}
